@@ -144,19 +144,39 @@ def state_digest(state):
         return None
 
 
+class CallbackBoom(Exception):
+    """Raised by a recorder callback when the fault plan names it."""
+
+
+# fault plan for recorder callbacks: {"tag": ..., "hook": "start"|"start_state"|"pretask"|"posttask"} -> that hook of
+# that callback raises CallbackBoom (after logging that it was called); None = no fault
+FAULT = {"tag": None, "hook": None}
+
+
+def _fault(tag, hook):
+    if FAULT["tag"] == tag and FAULT["hook"] == hook:
+        G.log_event(("cb_raise", tag, hook))
+        raise CallbackBoom("%s.%s" % (tag, hook))
+
+
 def recorder(tag="cb"):
     """A 5-tuple of callbacks logging into the event log."""
     def start(dsk):
         G.log_event(("cb_start", tag, None))
+        _fault(tag, "start")
+        G.log_event(("cb_started", tag, None))
 
     def start_state(dsk, state):
         G.log_event(("cb_start_state", tag, state_digest(state)))
+        _fault(tag, "start_state")
 
     def pretask(key, dsk, state):
         G.log_event(("cb_pre", tag, key, state_digest(state)))
+        _fault(tag, "pretask")
 
     def posttask(key, result, dsk, state, worker_id):
         G.log_event(("cb_post", tag, key, state_digest(state)))
+        _fault(tag, "posttask")
 
     def finish(dsk, state, failed):
         G.log_event(("cb_finish", tag, failed, sorted(map(repr, state.get("released", ()))) if state else None))
